@@ -530,7 +530,9 @@ pub fn reader_g(cx: &mut Ctx, kind: usize, data: &[u8], gen: Option<(usize, u64,
     cx.sum.eval(&cell, &cj.to_string(), ops.len() >= 3);
     cx.sum.dist_max("reader_max_ops", ops.len() as u64);
     if gen.is_some() { cx.sum.dist("reader_big_input"); }
-    if kind >= 6 { cx.sum.cell_status(&cell, "S-only"); }
+    // sbr_preset (two of its five presets) and zc_default are the modelled state machines with preset numbers
+    // sbr_over_range is the buffered-reader model over the range slice (theorem range_read_is_cursor_read)
+    if kind > 6 && kind != 10 && kind != 11 && kind != 12 { cx.sum.cell_status(&cell, "S-only"); }
     for (name, _) in ops { if matches!(name.as_str(), "vec" | "utf8" | "crc" | "vcrc" | "usage" | "rinfo" | "set_total" | "inner_pos" | "add_range" | "next_range" | "minfo" | "reads" | "direct") { cx.sum.dist(&format!("reader_op_{}", name)); } }
     let mut obs = vec![];
     let r = guarded(|| -> Result<(), String> {
@@ -554,13 +556,30 @@ pub fn wkind_name(k: usize) -> &'static str {
 
 fn payload(counter: &mut u64, n: usize) -> Vec<u8> { (0..n).map(|_| { *counter += 1; (*counter * 31 + (*counter >> 8)) as u8 }).collect() }
 
+/// One operation of a writer history as the writer model reads it: (code, numeric argument, payload) and what the
+/// implementation answered: the outcome and the length of the destination afterwards.  code -1 = not modelled.
+pub struct WLog { pub code: i128, pub arg: i128, pub data: Vec<u8>, pub out: i128, pub dest: i128 }
+thread_local! {
+    pub static WLOG: std::cell::RefCell<Vec<WLog>> = std::cell::RefCell::new(vec![]);
+    /// what zc_ensure_write granted (-1 = the operation did not run)
+    pub static LAST_K: std::cell::Cell<i128> = std::cell::Cell::new(-1);
+}
+thread_local! {
+    /// range writer cases: (original destination, destination afterwards, range start, range end)
+    pub static RW_FINAL: std::cell::RefCell<Option<(Vec<u8>, Vec<u8>, u64, u64)>> = std::cell::RefCell::new(None);
+}
+fn wlog(code: i128, arg: i128, data: &[u8], out: i128) {
+    let dest = super::c13_io::CHUNKY_LEN.with(|c| c.get()) as i128;
+    WLOG.with(|l| l.borrow_mut().push(WLog { code, arg, data: data.to_vec(), out, dest }));
+}
+
 /// Generic driver over io::Write; operations the writer kind adds come through `ext` (Some(true) = the payload was accepted).
 fn run_w<W: Write>(w: &mut W, ops: &[Op], accepted: &mut Vec<u8>, ctr: &mut u64, ext: &mut dyn FnMut(&mut W, &str, usize, &[u8], &[u8]) -> Result<Option<bool>, String>) -> Result<(), String> {
     for (idx, (name, n)) in ops.iter().enumerate() {
         match name.as_str() {
-            "write" => { let d = payload(ctr, *n as usize); let k = w.write(&d).map_err(|x| format!("op {} write({}) failed: {}", idx, n, x))?; if k > d.len() { return Err(format!("op {}: write accepted {} of {}", idx, k, d.len())); } accepted.extend_from_slice(&d[..k]); }
-            "write_all" => { let d = payload(ctr, *n as usize); w.write_all(&d).map_err(|x| format!("op {} write_all({}) failed: {}", idx, n, x))?; accepted.extend_from_slice(&d); }
-            "flush" => w.flush().map_err(|x| format!("op {} flush failed: {}", idx, x))?,
+            "write" => { let d = payload(ctr, *n as usize); let k = w.write(&d).map_err(|x| format!("op {} write({}) failed: {}", idx, n, x))?; if k > d.len() { return Err(format!("op {}: write accepted {} of {}", idx, k, d.len())); } accepted.extend_from_slice(&d[..k]); wlog(0, 0, &d, k as i128); }
+            "write_all" => { let d = payload(ctr, *n as usize); w.write_all(&d).map_err(|x| format!("op {} write_all({}) failed: {}", idx, n, x))?; accepted.extend_from_slice(&d); wlog(1, 0, &d, 1); }
+            "flush" => { w.flush().map_err(|x| format!("op {} flush failed: {}", idx, x))?; wlog(2, 0, &[], 1); }
             // VectoredIO::write_vectored of three buffers (the middle one empty): the first `total` bytes of the buffers, in order, were written
             "vecw" => {
                 let d = payload(ctr, *n as usize);
@@ -569,8 +588,25 @@ fn run_w<W: Write>(w: &mut W, ops: &[Op], accepted: &mut Vec<u8>, ctr: &mut u64,
                 let k = zipora::io::VectoredIO::write_vectored(w, &bufs).map_err(|x| format!("op {} write_vectored({}) failed: {}", idx, n, x))?;
                 if k > d.len() { return Err(format!("op {}: write_vectored accepted {} of {}", idx, k, d.len())); }
                 accepted.extend_from_slice(&d[..k]);
+                wlog(-1, 0, &[], 0);
             }
-            other => { let d = payload(ctr, *n as usize); if let Some(true) = ext(w, other, *n as usize, &d, accepted).map_err(|x| format!("op {} ({} {}): {}", idx, other, n, x))? { accepted.extend_from_slice(&d); } }
+            other => {
+                let d = payload(ctr, *n as usize);
+                LAST_K.with(|c| c.set(-1));
+                let r = ext(w, other, *n as usize, &d, accepted).map_err(|x| format!("op {} ({} {}): {}", idx, other, n, x))?;
+                if let Some(true) = r { accepted.extend_from_slice(&d); }
+                let granted = LAST_K.with(|c| c.get());
+                match (other, r) {
+                    ("byte", Some(true)) => wlog(3, 0, &d, 1),
+                    ("direct", Some(true)) => wlog(4, 0, &d, 1),
+                    ("zc", Some(b)) => wlog(5, 0, &d, b as i128),
+                    ("zc_ensure", None) if granted >= 0 => wlog(6, *n as i128, &[], granted),
+                    // observers and operations the kind does not have leave the writer alone
+                    (_, None) => {}
+                    // anything else that was accepted is not part of the model
+                    _ => wlog(-1, 0, &[], 0),
+                }
+            }
         }
     }
     Ok(())
@@ -583,13 +619,17 @@ pub fn writer(cx: &mut Ctx, kind: usize, cfg: &[u64], ops: &[Op]) {
     let cj = json!({"cell": "writer", "kind": kind, "cfg": cfg, "ops": ops_json(ops)});
     if !cx.gate(&cj) { return; }
     cx.sum.eval(&cell, &cj.to_string(), ops.len() >= 3);
-    cx.sum.cell_status(&cell, "S-only");
+    if !matches!(kind, 0 | 1 | 2 | 3 | 4 | 6 | 8 | 9) { cx.sum.cell_status(&cell, "S-only"); }
     for (name, _) in ops { if matches!(name.as_str(), "vecw" | "zc_ensure" | "winfo" | "seek_start" | "seek_cur" | "seek_end" | "truncate") { cx.sum.dist(&format!("writer_op_{}", name)); } }
     let cap = g(cfg, 0, 8) as usize;
     let bulk = (g(cfg, 1, 8192) as usize).max(1);
     let chunk = g(cfg, 2, 1).max(1) as usize;
     let path = format!("{}/wr_{}.bin", cx.tmp, kind);
     let e = |x: zipora::ZiporaError| x.to_string();
+    WLOG.with(|l| l.borrow_mut().clear());
+    RW_FINAL.with(|f| *f.borrow_mut() = None);
+    super::c13_io::CHUNKY_LEN.with(|c| c.set(0));
+    let mut final_dest: Option<Vec<u8>> = None;
     let r = guarded(|| -> Result<(), String> {
         let mut accepted: Vec<u8> = vec![];
         let mut ctr = 0u64;
@@ -629,6 +669,7 @@ pub fn writer(cx: &mut Ctx, kind: usize, cfg: &[u64], ops: &[Op]) {
                         }
                         "zc_ensure" => {
                             let k = w.zc_ensure_write(n).map_err(|x| x.to_string())?;
+                            LAST_K.with(|c| c.set(k as i128));
                             if k > n || k > w.zc_write_available() || (n <= cap_eff && k != n) { return Err(format!("zc_ensure_write({}) = {} with {} bytes of space (capacity {})", n, k, w.zc_write_available(), cap_eff)); }
                             Ok(None)
                         }
@@ -662,6 +703,7 @@ pub fn writer(cx: &mut Ctx, kind: usize, cfg: &[u64], ops: &[Op]) {
                     let want = if i >= s0 && i < s0 + accepted.len() { accepted[i - s0] } else if i < orig.len() { orig[i] } else { 0 };
                     if b != want { return Err(format!("range writer left byte {} = {}, want {} (range start {}, accepted {} bytes)", i, b, want, s0, accepted.len())); }
                 }
+                RW_FINAL.with(|f| *f.borrow_mut() = Some((orig.clone(), out.clone(), start, start.saturating_add(len))));
                 return Ok(());
             }
             5 => return sbw_seek(cfg, ops),
@@ -670,12 +712,35 @@ pub fn writer(cx: &mut Ctx, kind: usize, cfg: &[u64], ops: &[Op]) {
             _ => return zc_buffer(cfg, ops),
         };
         if got != accepted { return Err(format!("destination holds {} bytes {:?}, the writer accepted {} bytes {:?}", got.len(), &got[..got.len().min(40)], accepted.len(), &accepted[..accepted.len().min(40)])); }
+        final_dest = Some(got);
         Ok(())
     });
     match r {
         Err(p) => cx.sum.fail(&cell, None, cj, &format!("panicked: {}", p)),
         Ok(Err(why)) => cx.sum.fail(&cell, None, cj, &why),
-        Ok(Ok(())) => {}
+        Ok(Ok(())) => {
+            // model tie: the range writer as a transducer to inner writes, replayed on a cursor
+            if let Some((orig, out, start, end)) = RW_FINAL.with(|f| f.borrow_mut().take()) {
+                let log = WLOG.with(|l| std::mem::take(&mut *l.borrow_mut()));
+                cx.coq_range_writer(&cell, start, end, &orig, &log, &out);
+                return;
+            }
+            // model tie: the buffered and the zero-copy writer (explicit and default configuration) over the short-write destination
+            if let Some(dest) = final_dest {
+                let log = WLOG.with(|l| std::mem::take(&mut *l.borrow_mut()));
+                let unlimited = |on: bool| if on { chunk as i128 } else { 0 };
+                let (zc, capm, bulkm, chunkm): (bool, i128, i128, i128) = match kind {
+                    0 => (false, cap.max(1) as i128, bulk as i128, 0),
+                    1 => (false, cap.max(1) as i128, bulk as i128, chunk as i128),
+                    8 => (false, 65536, 8192, unlimited(g(cfg, 2, 0) > 0)),
+                    2 => (true, cap as i128, 0, 0),
+                    3 => (true, cap as i128, 0, chunk as i128),
+                    9 => (true, 65536, 0, unlimited(g(cfg, 2, 0) > 0)),
+                    _ => return,
+                };
+                cx.coq_writer(&cell, zc, capm, bulkm, chunkm, &log, &dest);
+            }
+        }
     }
 }
 
@@ -744,7 +809,7 @@ fn range_writer_seek(cfg: &[u64], ops: &[Op]) -> Result<(), String> {
         if let Some(sf) = seek_of(name, *n) {
             let tgt: i128 = match sf { SeekFrom::Start(x) => start as i128 + x as i128, SeekFrom::Current(x) => cur as i128 + x as i128, SeekFrom::End(x) => end as i128 + x as i128 };
             let want = tgt.clamp(start as i128, end as i128) as u64;
-            match w.seek(sf) { Ok(q) => { if q != want - start { return Err(at(format!("seek returned {}, want {}", q, want - start))); } cur = want; } Err(x) => return Err(at(format!("seek failed: {}", x))) }
+            match w.seek(sf) { Ok(q) => { if q != want - start { return Err(at(format!("seek returned {}, want {}", q, want - start))); } cur = want; wlog(match sf { SeekFrom::Start(_) => 9, SeekFrom::Current(_) => 10, SeekFrom::End(_) => 11 }, match sf { SeekFrom::Start(x) => x as i128, SeekFrom::Current(x) | SeekFrom::End(x) => x as i128 }, &[], q as i128); } Err(x) => return Err(at(format!("seek failed: {}", x))) }
             continue;
         }
         match name.as_str() {
@@ -756,8 +821,9 @@ fn range_writer_seek(cfg: &[u64], ops: &[Op]) -> Result<(), String> {
                 model[cur as usize..cur as usize + k].copy_from_slice(&d[..k]);
                 cur += k as u64;
                 total += k as u64;
+                if name == "write" { wlog(0, 0, &d, k as i128); } else { wlog(-1, 0, &[], 0); }
             }
-            "flush" => w.flush().map_err(|x| at(x.to_string()))?,
+            "flush" => { w.flush().map_err(|x| at(x.to_string()))?; wlog(2, 0, &[], 1); }
             "winfo" => {
                 let got = (w.current_position(), w.remaining(), w.bytes_written(), w.is_at_end(), w.start_position(), w.end_position(), w.range_length());
                 if got != (cur, end - cur, total, cur >= end, start, end, len) { return Err(at(format!("accessors (current, remaining, bytes_written, at_end, start, end, length) = {:?}, {} bytes written", got, total))); }
@@ -768,6 +834,7 @@ fn range_writer_seek(cfg: &[u64], ops: &[Op]) -> Result<(), String> {
     }
     let out = w.into_inner().into_inner();
     if out != model { let i = out.iter().zip(model.iter()).position(|(a, b)| a != b).unwrap_or(out.len().min(model.len())); return Err(format!("destination ({} bytes) differs from the original overlaid with the writes ({} bytes) at byte {}", out.len(), model.len(), i)); }
+    RW_FINAL.with(|f| *f.borrow_mut() = Some((orig, out, start, end)));
     Ok(())
 }
 
